@@ -1037,7 +1037,23 @@ class RZILTransformer(Transformer):
 
     def block_item(self, items):
         self.ext.set_token_meta_data("block_item")
-        return items[0]
+        item = items[0]
+        if (
+            isinstance(item, Pure)
+            and not isinstance(item, Effect)
+            and len(self.il_ops_holder.hybrid_effect_dict) > 0
+        ):
+            # An expression statement whose value is not used (e.g. "i++;" or "fcn(x);").
+            # No effect depends on the hybrid. So it must be executed here, at its
+            # position in the source. Otherwise, it ends up in front of all other statements.
+            pending = [
+                self.il_ops_holder.hybrid_effect_dict.pop(hid)
+                for hid in [k for k in self.il_ops_holder.hybrid_effect_dict.keys()]
+            ]
+            if len(pending) == 1:
+                return pending[0]
+            return self.add_op(Sequence(f"seq", pending))
+        return item
 
     def chk_hybrid_dep(
         self, effect: Effect, order: HybridSeqOrder = HybridSeqOrder.HYB_THEN_SEQ
